@@ -124,6 +124,23 @@ func genSetup(r *RNG, big bool) []Op {
 			ops = append(ops, o)
 		}
 	}
+	if !big && r.Intn(3) == 0 {
+		// a shared compressed sparse matrix (one or two), read by the clients through SparseRead
+		for k := 1 + r.Intn(2); k > 0; k-- {
+			rows, cols := 1+r.Intn(4), 2+r.Intn(5)
+			n := 1 + r.Intn(8)
+			I := []int{rows, cols, n}
+			for i := 0; i < n; i++ {
+				I = append(I, r.Intn(rows))
+			}
+			for i := 0; i < n; i++ {
+				I = append(I, r.Intn(cols))
+			}
+			o := Op{Name: "SharedCS", S: []string{"float64", "int", "float32"}[r.Intn(3)], I: I, N: r.Intn(2), F: float64(r.Intn(900)), Out: -1}
+			w.Exec(&o)
+			ops = append(ops, o)
+		}
+	}
 	return ops
 }
 
@@ -157,6 +174,7 @@ func clientWorld(shared *World, c int) *World {
 	w.client = c
 	w.nshared = shared.nshared
 	w.slots = append([]*tensor.Dense(nil), shared.slots[:shared.nshared]...)
+	w.sparse = shared.sparse
 	w.eng = &FaultEng{st: &faultState{}}
 	return w
 }
